@@ -163,13 +163,19 @@ func runCheck(prop, tier, repo, overlayFile, only string, writeEvidence, keep, v
 		if only != "" && !strings.Contains(con.Key, only) {
 			continue
 		}
-		fn := eng.findFunction(con.PkgPath, con.Key)
+		fn0 := eng.findFunction(con.PkgPath, con.Key)
 		short := shortenPaths(con.PkgPath) + "." + con.Key
-		if fn == nil {
+		if fn0 == nil {
 			obls = append(obls, &Obligation{Name: short + "/bind/function-exists#0", Kind: "bind", Fn: short, Result: "sat", Solver: "binder",
 				Model: fmt.Sprintf("contract %s:%d names function %s which does not exist in package %s", con.File, con.Line, con.Key, con.PkgPath)})
 			continue
 		}
+		// a generic function or method is verified on every closed instance the program has
+		fns := []*ssa.Function{fn0}
+		if fn0.Origin() != nil {
+			fns = eng.findInstances(con.PkgPath, con.Key)
+		}
+		for _, fn := range fns {
 		rep := fnReport{Name: eng.shortFn(fn), InSubset: true, Trusted: con.Trusted}
 		for _, b := range fn.Blocks {
 			rep.Instrs += len(b.Instrs)
@@ -194,6 +200,7 @@ func runCheck(prop, tier, repo, overlayFile, only string, writeEvidence, keep, v
 		sort.Strings(rep.Unknown)
 		reports = append(reports, rep)
 		obls = append(obls, fc.obls...)
+		}
 	}
 	// lemmas
 	lemObls := eng.lemmaObligations(prop)
